@@ -24,7 +24,12 @@ if STORED:
 try:
     shutil.copytree("/repo/python", f"{scratch}/python", ignore=shutil.ignore_patterns("__pycache__", "*.egg-info"))
     shutil.copytree("/repo/tests", f"{scratch}/tests", ignore=shutil.ignore_patterns("__pycache__"))
-    demo = demo_file
+    # demos written by the agents sometimes assert that the library is imported from their own worktree
+    import re as _re
+    _src = open(demo_file).read()
+    _src = _re.sub(r"^(\s*)assert [^\n]*startswith\([\"']/tmp/wt-[^\n]*$", r"\1pass  # (worktree path assertion removed)", _src, flags=_re.M)
+    demo = f"{scratch}/demo_under_test.py"
+    open(demo, "w").write(_src)
     env = {"PYTHONPATH": f"{scratch}/python", "PYTHONDONTWRITEBYTECODE": "1"}
     rc0, out0 = run(f"/venv/bin/python {demo}", env=env, cwd=scratch)
     rc, out = run(f"patch -p1 < {patch_file}", cwd=scratch)
